@@ -14,6 +14,15 @@ UTILS_STUBS = [dict(it, stub=True, loops={}, hints=[]) for it in UTILS_FNS]
 G = 'cachelito-core/src/global_cache.rs'
 A = 'cachelito-core/src/async_global_cache.rs'
 
+SUM_A = dict(kind='raw', label='async_sum_spec', text='''
+/// R4: DashMap `iter().map(|e| e.value().0.estimate_memory()).sum()` (under interference only its type matters)
+#[verifier::external_body]
+pub fn sum_estimates_a<R: MemoryEstimator>(m: &HashMap<String, (R, u64, u64)>) -> (r: usize)
+    // the estimates of the resident values and of the value being stored count bytes that are live at the same time (assumption ax_resident_fits_a)
+    ensures forall|v: R| r + #[trigger] v.mem() <= usize::MAX
+{ unimplemented!() }
+''')
+
 ONE = ('one_counter_per_lookup_under_interference', ['C15'],
        'final(self).stats.hits.v == (if res is Some { old(self).stats.hits.v.wrapping_add(1) } else { old(self).stats.hits.v }) '
        '&& final(self).stats.misses.v == (if res is Some { old(self).stats.misses.v } else { old(self).stats.misses.v.wrapping_add(1) })')
@@ -22,7 +31,7 @@ UNIT = dict(
     name='interference',
     auto_helpers=True,
     prelude=['prelude.rs', 'prelude_float.rs'],
-    items=COMMON + UTILS_STUBS + SCORE_STUBS + [AC.SPEC_MIN,
+    items=COMMON + UTILS_STUBS + SCORE_STUBS + [AC.SPEC_MIN, SUM_A,
         dict(kind='struct', file=G, name='GlobalCache', rules=R1_TYPES),
         dict(kind='fn', file=G, impl=r"^impl<R: Clone \+ 'static> GlobalCache<R>$", name='get', label='GlobalCache::get[interference]', engine='GlobalCache',
              interference=True, ret='res', ensures=[ONE]),
@@ -60,5 +69,11 @@ UNIT = dict(
              loops={0: dict(invariant=[('shrinks', 'order@.len() <= old(order)@.len()')], decreases='order@.len()')}),
         dict(kind='fn', file=A, impl=AC.IMPL, name='insert', label='AsyncGlobalCache::insert[interference]', engine='AsyncGlobalCache', interference=True,
              rules=R4 + R5 + R1_TYPES, impl_rules=AC.LIFETIME, props=['C16']),
+        # the async memory-aware store under interference: panic freedom and termination (every evicting arm shortens the queue)
+        dict(kind='fn', file=A, impl=AC.IMPL_MEM, name='insert_with_memory', label='AsyncGlobalCache::insert_with_memory[interference]', engine='AsyncGlobalCache',
+             interference=True, rules=R4 + R5 + R1_TYPES, impl_rules=AC.LIFETIME + [R('R0.crate_path', r'\bcrate :: MemoryEstimator\b', 'MemoryEstimator', 'crate:: path prefix')],
+             props=['C16'], requires=[('tlru_cfg', 'old(self).policy is TLRU ==> tlru_cfg_ok(old(self).ttl, old(self).frequency_weight)')],
+             loops={0: dict(invariant=[('cfg', 'self.policy == old(self).policy && self.ttl == old(self).ttl && self.frequency_weight == old(self).frequency_weight && self.limit == old(self).limit && (self.policy is TLRU ==> tlru_cfg_ok(self.ttl, self.frequency_weight))'), ('size', 'value_size == value.mem()')],
+                            decreases='order@.len()')}),
     ],
 )
